@@ -204,7 +204,9 @@ ScalarPool == { NumL(0), NumL(1), NumL(2), NumL(12), NumH(3), StrL("12"), StrL("
 CmpOps == {"=", "!=", "<", "<=", ">", ">="}
 
 FilterPreds == { <<NumL(1)>>, <<NumL(2)>>, <<Fn0("last")>>, <<Bin("=", Fn0("position"), NumL(2))>>,
-                 <<Rel(<<AtS("x")>>)>>, <<NumL(3)>>, <<Bin(">", Fn0("position"), NumL(1)), NumL(1)>> }
+                 <<Rel(<<AtS("x")>>)>>, <<NumL(3)>>, <<Bin(">", Fn0("position"), NumL(1)), NumL(1)>>,
+                 \* a later predicate of a filter expression sees the size of what the earlier ones left
+                 <<Rel(<<AtS("x")>>), Fn0("last")>>, <<Bin(">", Fn0("position"), NumL(1)), Bin("=", Fn0("position"), Fn0("last"))>> }
 FilterSteps == { <<>>, <<Step("child", AnyT, <<>>)>>, <<Up>>, <<Dos, Step("child", TypeT("text"), <<>>)>>,
                  <<Step("ancestor", AnyT, <<NumL(1)>>)>> }
 
@@ -249,6 +251,9 @@ Expand(s) ==
   CASE s.fam = "p1" -> { Rel(<<st>>) : st \in StepsOfAxis(s.a) } \cup { AbsP(<<Dos, st>>) : st \in StepsOfAxis(s.a) }
     [] s.fam = "g1" -> { AbsP(<<Dos, Step(s.a, t, p)>>) : t \in Tests, p \in PredsSmall }
     [] s.fam = "p2" -> { AbsP(ld \o <<st>>) : ld \in Lead, st \in StepsOfAxis(s.a) }
+                       \* every axis from an ATTRIBUTE context node (following / preceding / parent / ancestor ... of
+                       \* an attribute), with the bare node tests and a positional predicate - in every tier
+                       \cup { AbsP(<<Dos, AtS("x"), Step(s.a, t, p)>>) : t \in Tests, p \in {<<>>, <<NumL(1)>>} }
     [] s.fam = "un" -> { Bin("|", A, B) : A \in Pool, B \in Pool }
                        \cup { Bin("|", Bin("|", A, B), C) : A \in Pool, B \in Pool, C \in PathPoolSmall }
                        \cup { Bin("|", A, Bin("|", B, C)) : A \in PathPoolSmall, B \in Pool, C \in PathPoolSmall }
